@@ -166,6 +166,7 @@ def run(repo, rep, tier):
     from .c17 import content_length_rule
     content_length_rule(rep, repo.cls('pywbem/_listener.py',
                                       'ListenerRequestHandler'), 'C03.R7')
+    strict_wire_encoding(repo, rep)
     D = dtdmod.load(repo)
     W = X.writers(repo)
     cons = X.constructed_elements(repo)
@@ -673,3 +674,45 @@ def _r3_sequences(repo, rep, D, W, cons, byclass):
                                 'differently' % (e, shape, len(major)))
         r3c.ob(len(forms) <= 1, e + ':siblings',
                {'element': e, 'sites': len(sites), 'forms': len(forms)})
+
+
+def strict_wire_encoding(repo, rep):
+    """C03.R8: text becomes bytes for the wire by *strict* UTF-8 encoding.
+    A str can hold lone surrogates, which have no UTF-8 encoding; the strict
+    encoder raises UnicodeEncodeError, so the operation fails locally.  Any
+    other error handler emits something instead: `xmlcharrefreplace` a
+    character reference to a code point XML 1.0 forbids (the document is not
+    well-formed), `surrogatepass` bytes that are not UTF-8, `replace` /
+    `ignore` another text than the caller's."""
+    r8 = rep.rule('C03.R8', 'request / response text is encoded to bytes '
+                  'with the strict error handler')
+    FILES = ('pywbem/_cim_http.py', 'pywbem/_utils.py', 'pywbem/_listener.py',
+             'pywbem/_cim_operations.py', 'pywbem/_cim_xml.py')
+    for rel in FILES:
+        m = repo.module(rel)
+        for f in m.all_funcs():
+            for c in walk_no_nested(f.node):
+                if not (isinstance(c, ast.Call) and
+                        isinstance(c.func, ast.Attribute) and
+                        c.func.attr == 'encode'):
+                    continue
+                r8.sites += 1
+                r8.functions.add(f.fq)
+                err = c.args[1] if len(c.args) > 1 else None
+                for k in c.keywords:
+                    if k.arg == 'errors':
+                        err = k.value
+                ok = err is None or const_str(err) == 'strict'
+                r8.ob(ok, '%s|%s' % (f.qualname, norm(c, 60)))
+                if not ok:
+                    rep.finding(r8, f.qualname, norm(c, 70),
+                                'lenient-encoding', rel, c.lineno,
+                                'the text is encoded with the error handler '
+                                '%s: a lone surrogate in a string argument '
+                                'is sent (as an invalid character reference '
+                                '/ invalid UTF-8 / altered text) instead of '
+                                'failing locally with UnicodeEncodeError'
+                                % norm(err))
+    if r8.sites < 3:
+        raise AnalysisError('C03.R8: only %d encode() calls on the wire '
+                            'path' % r8.sites)
